@@ -11,7 +11,7 @@ import itertools
 import numpy as np
 from pyvc.bounded import bounded
 from pyvc import gens
-from bounded.c03_convolution import conv_matrix, embed, signed_kernel, random_inner, random_matrix, maxerr
+from bounded.c03_convolution import conv_matrix, embed, signed_kernel, random_inner, random_matrix, maxerr, guarded
 
 RTOL = 1e-8
 SQUARE = [(3, 3), (1, 1), (5, 5)]
@@ -48,16 +48,22 @@ def make_objects(aa, mk, specs):
     """linear objects from JSON-able specs:
        {"kind": "mapper", "shape": (my, mx), "sub": s, "seed": n, "distort": x, "reg": coefficient or None}
            rectangular mapper over the over-sampled image grid displaced by seeded Gaussian offsets (source-plane distortion)
+       {"kind": "delaunay", "points": (p, 2) array, "sub", "seed", "distort", "reg"}   Delaunay mapper on the given mesh points
        {"kind": "func", "matrix": (n_data, p) array}   linear function list without regularization"""
     objs = []
     for sp in specs:
-        if sp["kind"] == "mapper":
+        if sp["kind"] in ("mapper", "delaunay"):
             osamp = aa.OverSamplerUniform(mask=mk, sub_size=int(sp["sub"]))
             g = np.asarray(osamp.over_sampled_grid, dtype=float)
             r = np.random.default_rng(int(sp["seed"]))
             grid = aa.Grid2DIrregular(values=g + float(sp["distort"]) * r.normal(size=g.shape))
-            mesh = aa.mesh.Rectangular(shape=tuple(int(v) for v in sp["shape"]))
-            mg = mesh.mapper_grids_from(mask=mk, border_relocator=None, source_plane_data_grid=grid)
+            if sp["kind"] == "mapper":
+                mesh = aa.mesh.Rectangular(shape=tuple(int(v) for v in sp["shape"]))
+                mg = mesh.mapper_grids_from(mask=mk, border_relocator=None, source_plane_data_grid=grid)
+            else:
+                pts = aa.Grid2DIrregular(values=np.asarray(sp["points"], dtype=float).copy())
+                mg = aa.mesh.Delaunay().mapper_grids_from(mask=mk, border_relocator=None, source_plane_data_grid=grid,
+                                                          source_plane_mesh_grid=pts)
             reg = None if sp["reg"] is None else aa.reg.Constant(coefficient=float(sp["reg"]))
             objs.append(aa.Mapper(mapper_grids=mg, over_sampler=osamp, regularization=reg))
         else:
@@ -109,7 +115,7 @@ def dataset_case(rng, regime, ks, inner=None, extra=None):
             "noise": gens.reals(rng, mask.shape, 0.3, 2.5, special=False), "kernel": kernel_for(rng, regime, ks)}
 
 
-ORDERS = ["m", "mf", "fm", "mm", "mfm", "fmf", "mmf", "ffm", "fmm", "mmm", "f", "ff"]
+ORDERS = ["m", "mf", "fm", "mm", "mfm", "fmf", "mmf", "d", "fd", "dm", "mfd", "ffm", "fmm", "mmm", "f", "ff"]
 
 
 def object_specs(rng, order, n, signed_func):
@@ -121,6 +127,11 @@ def object_specs(rng, order, n, signed_func):
             reg = rng.choice([1.0, 0.5, 2.0, 1.0, None]) if len(order) > 1 else rng.choice([1.0, 0.5, 2.0])
             specs.append({"kind": "mapper", "shape": shapes[k], "sub": rng.choice([1, 2, 2, 3]), "seed": rng.randrange(10 ** 6),
                           "distort": rng.choice([0.0, 0.2, 0.5, 1.0]), "reg": reg})
+        elif c == "d":
+            reg = rng.choice([1.0, 0.5, 2.0, None]) if len(order) > 1 else rng.choice([1.0, 0.5, 2.0])
+            pts = np.array([[rng.uniform(-2.5, 2.5), rng.uniform(-2.5, 2.5)] for _ in range(rng.randint(4, 7))])
+            specs.append({"kind": "delaunay", "points": pts, "sub": rng.choice([1, 2, 2, 3]), "seed": rng.randrange(10 ** 6),
+                          "distort": rng.choice([0.0, 0.2, 0.5]), "reg": reg})
         else:
             specs.append({"kind": "func", "matrix": random_matrix(rng, n, rng.randint(1, 2), "signed" if signed_func else "nonneg")})
     return specs
@@ -130,7 +141,7 @@ def _gen_inversion(regime):
     def gen(rng, tier):
         shapes = kshapes_for(regime)
         k = 0
-        for rep in range(gens.budget(tier, 12, 150)):
+        for rep in range(gens.budget(tier, 50, 500)):
             for order in ORDERS:
                 if regime == "signed-func" and "f" not in order:
                     continue
@@ -159,12 +170,13 @@ def _inversion_check(mask, data, noise, kernel, objects, diag):
     for use_w in (False, True):
         objs = make_objects(aa, mk, objects)
         inv = aa.Inversion(dataset=ds, linear_obj_list=objs, settings=settings(aa, use_w, diag))
-        name = type(inv).__name__
         all_func = all(sp["kind"] == "func" for sp in objects)
-        if use_w and not all_func and name != "InversionImagingWTilde":
-            return "use_w_tilde=True with a mapper did not select the w-tilde formalism (%s)" % name
-        if not use_w and name != "InversionImagingMapping":
-            return "use_w_tilde=False did not select the mapping formalism (%s)" % name
+        # whatever the factory's policy, both formalisms are exercised (function-list-only inversions have no w-tilde form)
+        if use_w and not all_func and not isinstance(inv, aa.InversionImagingWTilde):
+            inv = aa.InversionImagingWTilde(dataset=ds, w_tilde=ds.w_tilde, linear_obj_list=objs, settings=settings(aa, True, diag))
+        if not use_w and not isinstance(inv, aa.InversionImagingMapping):
+            inv = aa.InversionImagingMapping(dataset=ds, linear_obj_list=objs, settings=settings(aa, False, diag))
+        name = type(inv).__name__
         mats = [np.asarray(o.mapping_matrix, dtype=float) for o in objs]
         noreg = []
         pos = 0
@@ -215,8 +227,8 @@ _DOC = """C04: 'the data vector equals B^T N^-1 d and the curvature matrix equal
     PSF-blurred mapping matrix of all objects and N the diagonal noise covariance, plus only the configured small diagonal
     term on parameters without regularization. The mapping-matrix formalism and the w-tilde formalism return the same data
     vector, curvature matrix, reconstruction and mapped reconstructed data ... The curvature matrix is symmetric and its
-    blocks follow the order of the linear objects' -- aa.Inversion with use_w_tilde off and on, 1..3 linear objects in 12
-    orders (rectangular mappers 3x3..4x4,3x5,5x3 on seeded distorted source grids, sub-size 1..3, with/without regularization;
+    blocks follow the order of the linear objects' -- aa.Inversion with use_w_tilde off and on, 1..3 linear objects in 16
+    orders (Delaunay mappers on 4..7 seeded mesh points, rectangular mappers 3x3..4x4,3x5,5x3 on seeded distorted source grids, sub-size 1..3, with/without regularization;
     function lists with 1..2 columns), masks: random interiors <= 2x3 padded by the kernel half-widths + 0..2; sub-domain: """
 
 
@@ -225,7 +237,7 @@ def _register(name, regime, subdomain):
         return _inversion_check(mask, data, noise, kernel, objects, diag)
     fn.__name__ = name.replace("-", "_")
     fn.__doc__ = _DOC + subdomain
-    return bounded("C04", name, gen=_gen_inversion(regime), nontrivial=_nontrivial_inv)(fn)
+    return bounded("C04", name, gen=_gen_inversion(regime), nontrivial=_nontrivial_inv)(guarded(fn))
 
 
 inversion_nonneg_square_psf = _register(
@@ -300,7 +312,7 @@ def _gen_util(regime, with_mapping=False):
                 ks = shapes[k % len(shapes)]
                 k += 1
                 yield dataset_case(rng, regime, ks, inner=inner, extra=(0, 0, 0, 0))
-            for _ in range(gens.budget(tier, 150, 2500)):
+            for _ in range(gens.budget(tier, 1500, 20000)):
                 yield dataset_case(rng, regime, rng.choice(shapes), inner=random_inner(rng, 3, 3))
         for case in itertools.chain(cases, more()):
             case["kernel"] = case["kernel"] if "kernel" in case else None
@@ -420,7 +432,7 @@ def _register_util(name, fn_check, regime, what, with_mapping=False):
             return fn_check(mask, data, noise, kernel)
     fn.__name__ = name.replace("-", "_")
     fn.__doc__ = _UDOC + what
-    return bounded("C04", name, gen=_gen_util(regime, with_mapping), nontrivial=lambda mask, **kw: (~mask).sum() >= 2)(fn)
+    return bounded("C04", name, gen=_gen_util(regime, with_mapping), nontrivial=lambda mask, **kw: (~mask).sum() >= 2)(guarded(fn))
 
 
 _register_util("util-w-tilde-data-square-psf", _w_data_check, "square-signed",
@@ -444,7 +456,7 @@ _register_util("util-w-tilde-preload-nonsquare-psf", _w_preload_check, "nonsquar
 def _gen_dv(rng, tier):
     yield {"blurred": np.array([[-1.0]]), "image": np.array([2.0]), "noise_slim": np.array([0.5]),
            **unique_mapping(rng, 1, "0"), "w_data": np.array([3.0])}
-    for _ in range(gens.budget(tier, 400, 5000)):
+    for _ in range(gens.budget(tier, 3000, 40000)):
         n = rng.randint(1, 7)
         case = {"blurred": random_matrix(rng, n, rng.randint(1, 5), rng.choice(["signed", "nonneg", "signed"])),
                 "image": gens.reals(rng, (n,), -5.0, 5.0), "noise_slim": gens.reals(rng, (n,), 0.2, 3.0, special=False),
@@ -454,10 +466,11 @@ def _gen_dv(rng, tier):
 
 
 @bounded("C04", "util-data-vectors", gen=_gen_dv, nontrivial=lambda blurred, **kw: blurred.shape[0] >= 2)
+@guarded
 def util_data_vectors(blurred, image, noise_slim, w_data, to_pix_0, weights_0, lengths_0, pixels_0):
     """C04: 'the data vector equals B^T N^-1 d' -- data_vector_via_blurred_mapping_matrix_from(B, d, sigma)[j] ==
     sum_i d_i B_ij / sigma_i^2 for every real B (signed, zeros, 1e8-scale data), and data_vector_via_w_tilde_data_imaging_from
-    == M^T w_data for a unique-mappings table M (signed weights); bound: 1..7 data pixels, 1..5 columns, 400 (5000) seeded."""
+    == M^T w_data for a unique-mappings table M (signed weights); bound: 1..7 data pixels, 1..5 columns, 3000 (40000) seeded."""
     from autoarray.inversion.inversion.imaging import inversion_imaging_util as u
     got = np.asarray(u.data_vector_via_blurred_mapping_matrix_from(blurred_mapping_matrix=blurred.copy(), image=image.copy(),
                                                                    noise_map=noise_slim.copy()), dtype=float)
